@@ -71,8 +71,8 @@ Print Assumptions C04_xdma_degenerate_collides.
 From Snax Require Import Model.AccIR Model.AccSem Model.C04Csr Proofs.C04CsrProofs.
 
 Theorem C04_lower_refines :
-  forall (am : amapT) (co : coracle) (p : prog) (cb : cblock) (args : list Z),
-  lower_block am (p_body p) = Some cb ->
+  forall (am : amapT) (idx : list val) (co : coracle) (p : prog) (cb : cblock) (args : list Z),
+  lower_block am idx (p_body p) = Some cb ->
   expand am (co_busy co) 0%nat (frun (co_orc co) p args) = Some (crun co (p_params p) cb args)
   /\ fenv (fexec_block (co_orc co) (p_body p) (finit p args))
      = cenv (cexec_block co cb (cinit co (p_params p) args)).
@@ -82,7 +82,7 @@ Print Assumptions C04_lower_refines.
 (* the lowering succeeds on every program whose accelerators / fields are declared and that contains
    no accfg.reset (the Python raises KeyError / leaves a malformed op otherwise) *)
 Theorem C04_lower_total :
-  forall am b, block_declared am b = true -> exists cb, lower_block am b = Some cb.
+  forall am idx b, block_declared am b = true -> exists cb, lower_block am idx b = Some cb.
 Proof. exact lower_total. Qed.
 Print Assumptions C04_lower_total.
 
@@ -90,7 +90,7 @@ Print Assumptions C04_lower_total.
    positions of the source; under MLIR typing (a state/token id is never used at an integer position)
    no state or token id occurs in the output. *)
 Theorem C04_no_state_survives :
-  forall am b cb, lower_block am b = Some cb ->
+  forall am idx b cb, lower_block am idx b = Some cb ->
   (forall x, In x (block_state_ids b) -> ~ In x (block_int_ids b)) ->
   forall x, In x (block_state_ids b) -> ~ In x (cblock_ids cb).
 Proof. exact no_state_survives. Qed.
@@ -131,7 +131,7 @@ Definition C04_ex_prog : prog :=
 
 Example C04_lower_nonvacuous :
   block_declared C04_ex_am (p_body C04_ex_prog) = true
-  /\ (exists cb, lower_block C04_ex_am (p_body C04_ex_prog) = Some cb /\ (List.length cb = 7)%nat)
+  /\ (exists cb, lower_block C04_ex_am [5%nat] (p_body C04_ex_prog) = Some cb /\ (List.length cb = 7)%nat)
   /\ (forall x, In x (block_state_ids (p_body C04_ex_prog)) -> ~ In x (block_int_ids (p_body C04_ex_prog)))
   /\ NoDup (map snd (ai_fields (hd (mkAccInfo [] [] 0 BPoll3) C04_ex_am))
             ++ map snd (ai_launch (hd (mkAccInfo [] [] 0 BPoll3) C04_ex_am)) ++ [CLEAR_ADDR]).
@@ -143,3 +143,49 @@ Proof.
   - cbn. repeat constructor; cbn; intuition discriminate.
 Qed.
 Print Assumptions C04_lower_nonvacuous.
+
+(* ---- instruction-configured (RoCC) accelerators ---------------------------------------------------------
+   For every setup the lowering issues exactly one instruction per touched instruction (declaration order),
+   and each issued instruction carries, for BOTH source fields, the value that field holds after the setup's
+   writes — also for the half whose write was deduplicated earlier — provided the inferred input state is
+   sound at that point ([holds (tlook T) m a i]: the invariant C07 establishes for certified tables,
+   Props/C07.v C07_certified_inference_sound).  For a first setup (no input state) a half that is not written
+   gets the materialised default 0. *)
+From Snax Require Import Model.AccInfer Model.C04Rocc Proofs.C04RoccProofs.
+
+Theorem C04_rocc_pairs_current :
+  forall (ri : rinfo) (T : tbl) (a : acc) ins fs cb (m : mstate),
+  lower_rocc_setup ri T ins fs = Some cb ->
+  (forall i, ins = Some i -> holds (tlook T) m a i = true) ->
+  let R' := write_fields (env m) fs (regs m a) in
+  (forall f7 v1 v2, In (CInsn f7 v1 v2) cb ->
+     exists rf f2, In rf (ri_fields ri) /\ rf_rs1 rf = true /\ rf_func7 rf = f7
+       /\ mem_nat (rf_instr rf) (touched (ri_fields ri) fs) = true
+       /\ half_field (ri_fields ri) (rf_instr rf) false = Some f2
+       /\ ((ins = None -> dict_last (rf_field rf) fs <> None) -> cval_eval (env m) v1 = R' (rf_field rf))
+       /\ ((ins = None -> dict_last f2 fs <> None) -> cval_eval (env m) v2 = R' f2)
+       /\ (ins = None -> dict_last (rf_field rf) fs = None -> v1 = VConst 0)
+       /\ (ins = None -> dict_last f2 fs = None -> v2 = VConst 0))
+  /\ (forall rf, In rf (ri_fields ri) -> rf_rs1 rf = true ->
+        mem_nat (rf_instr rf) (touched (ri_fields ri) fs) = true ->
+        exists v1 v2, In (CInsn (rf_func7 rf) v1 v2) cb).
+Proof. exact rocc_pairs_current. Qed.
+Print Assumptions C04_rocc_pairs_current.
+
+Theorem C04_rocc_launch_values :
+  forall (ri : rinfo) fs cb (e : envT),
+  lower_rocc_launch ri fs = Some cb ->
+  forall f7 v1 v2, In (CInsn f7 v1 v2) cb ->
+  exists rf f2 x1 x2, In rf (ri_launch ri) /\ rf_func7 rf = f7 /\ half_field (ri_launch ri) (rf_instr rf) false = Some f2
+    /\ dict_last (rf_field rf) fs = Some x1 /\ dict_last f2 fs = Some x2 /\ v1 = VRef x1 /\ v2 = VRef x2.
+Proof. exact rocc_launch_values. Qed.
+Print Assumptions C04_rocc_launch_values.
+
+(* non-vacuity: a setup with an input state that writes only the rs2 half of instruction 1; the rs1 operand is
+   retraced through the inferred state *)
+Example C04_rocc_nonvacuous :
+  let ri := mkRInfo [mkRF 0 0 true 9; mkRF 1 0 false 9; mkRF 2 1 true 10; mkRF 3 1 false 10]%nat [] in
+  let T : tbl := [(7%nat, [(0, 20); (1, 21); (2, 22); (3, 23)]%nat)] in
+  lower_rocc_setup ri T (Some 7%nat) [(3%nat, 30%nat)] = Some [CInsn 10 (VRef 22%nat) (VRef 30%nat)].
+Proof. vm_compute. reflexivity. Qed.
+Print Assumptions C04_rocc_nonvacuous.
